@@ -412,23 +412,32 @@ def smallest_box(W, H, cw, ch, C, R):
 
 
 def clauses_at(c, W, H, mc, mr, cw, ch, C, R):
-    """names of the clauses 2-4 of the statement that fail for the answer (C, R), image size W x H"""
+    """names of the clauses 2-4 of the statement that fail for the answer (C, R), image size W x H.
+    The clauses that only depend on the ASPECT RATIO (no unused row/column; an explicit dimension is kept unless the
+    other one had to be capped) are evaluated on the unscaled integer size w x h: the scale cancels there, so no
+    rounding of the scale factors can excuse an answer (since the repair of F-C15b the code derives these dimensions
+    from the unscaled size, and for sizes up to 10^4 px one correctly rounded division of integers cannot cross an
+    integer).  Only the fully automatic box depends on the scaled size W x H."""
     bad = []
     cols, rows = c["cols"], c["rows"]
+    Wa, Ha = Fraction(c["w"]), Fraction(c["h"])
     if cols is None and rows is None:
         C0, R0 = ceil_frac(W / cw), ceil_frac(H / ch)
         if C0 <= mc and R0 <= mr and (C, R) != (C0, R0):
             bad.append("auto-not-smallest-containing-box")
         if C0 <= mc and R0 <= mr and not smallest_box(W, H, cw, ch, C, R):
             bad.append("auto-not-smallest-containing-box")
-    if not no_unused(W, H, cw, ch, C, R):
+    # fully automatic and not capped: the box follows the scaled size (and its rounding); otherwise one dimension was
+    # derived from the other through the aspect ratio alone
+    auto_uncapped = cols is None and rows is None and ceil_frac(W / cw) <= mc and ceil_frac(H / ch) <= mr
+    if not (no_unused(W, H, cw, ch, C, R) if auto_uncapped else no_unused(Wa, Ha, cw, ch, C, R)):
         bad.append("unused-row-or-col")
     if cols is not None and cols <= mc:
-        r0 = ceil_frac(Fraction(cols * cw) * H / (W * ch))
+        r0 = ceil_frac(Fraction(cols * cw) * Ha / (Wa * ch))
         if not (C == cols or (r0 > mr and R == mr)):
             bad.append("explicit-cols-not-kept")
     if rows is not None and rows <= mr:
-        c0 = ceil_frac(Fraction(rows * ch) * W / (H * cw))
+        c0 = ceil_frac(Fraction(rows * ch) * Wa / (Ha * cw))
         if not (R == rows or (c0 > mc and C == mc)):
             bad.append("explicit-rows-not-kept")
     return sorted(set(bad))
